@@ -530,10 +530,19 @@ def run_check(pid, tier, seed, replay=None):
         if not re.search(r'^TABLE-ERROR', translator_out, re.M):
             broken.insert(0, ('translator-abort', 'tools/gen_tables.py', translator_out.strip()[-1500:]))
         for tname, text in errs:
-            soft = soft_ok and tname.startswith('t_src_') and tname not in in_hard
-            if soft and (tname in in_any or tname in named):
+            if not (tname in in_any or tname in named):
+                continue
+            gen_file = os.path.join(COQ, 'Generated', 'T_' + tname[2:] + '.v')
+            if soft_ok and tname.startswith('t_src_') and tname not in in_hard:
                 tie_broken.insert(0, ('source-translator-abort', tname, '%s: %s' % (tname, text[-1200:])))
-            elif tname in in_hard or (tname in named and not soft):
+            elif soft_ok and os.path.exists(gen_file):
+                # The source was rewritten into a shape the table translator does not recognise.  The table generated from
+                # the last source it DID recognise stays in place (gen_tables.py never writes on failure), so model and
+                # theorems are evaluated with those constants; whether they still describe the code is then decided by the
+                # (intensified) correspondence, exactly as for the function-body translation tie (DESIGN.md 2.5b).
+                tie_broken.insert(0, ('table-translator-abort', tname, '%s: %s (model evaluated with the last successfully generated %s)'
+                                      % (tname, text[-1200:], os.path.basename(gen_file))))
+            else:
                 broken.insert(0, ('translator-abort', 'tools/gen_tables.py', '%s: %s' % (tname, text[-1200:])))
     hyg = hygiene(closure)
     for h in hyg:
